@@ -13,9 +13,9 @@ INVARIANTS = [
 
 # which invariants decide which property (C06 = the C04/C05 state predicates in runs with crashes)
 PROP_INVS = {
-    "C04": ["C04_NoLostNoPhantom", "C04_AckIffCommitted", "C04_OneAtATime", "C04_OnlyLockFailures", "C04_FinalView", "C10_Terminates"],
+    "C04": ["C04_NoLostNoPhantom", "C04_AckIffCommitted", "C04_AckedIsCommitted", "C04_OneAtATime", "C04_OnlyLockFailures", "C04_FinalView", "C10_Terminates"],
     "C05": ["C05_ListIntegrity", "C05_NoGc"],
-    "C06": ["C06_Atomic", "C05_ListIntegrity", "C05_NoGc", "C04_NoLostNoPhantom", "C04_AckIffCommitted", "C04_FinalView", "C10_Readable"],
+    "C06": ["C06_Atomic", "C05_ListIntegrity", "C05_NoGc", "C04_NoLostNoPhantom", "C04_AckIffCommitted", "C04_AckedIsCommitted", "C04_FinalView", "C10_Readable"],
     "C08": ["C08_OwnerOnly"],
     "C09": ["C09_StaleNeverCommits", "C09_Refreshed"],
     "C10": ["C10_OneVersion", "C10_Readable", "C10_Content", "C10_Terminates"],
@@ -89,7 +89,7 @@ def random_call(rng, tg, weights=None):
     return [{"op": op}]
 
 
-def random_run(rng, rid, nh=None, ncalls=None, hash_=None, crash=False, weights=None):
+def random_run(rng, rid, nh=None, ncalls=None, hash_=None, crash=False, weights=None, fault=False):
     tg = TxnGen(rng)
     nh = nh or rng.choice([2, 2, 3, 3, 4])
     init = [tg.add() for _ in range(rng.choice([0, 1, 2, 2, 3, 4]))]
@@ -104,6 +104,9 @@ def random_run(rng, rid, nh=None, ncalls=None, hash_=None, crash=False, weights=
            "sched": [], "tail": rng.choice(["random", "pct", "pct"]), "seed": rng.randint(1, 1 << 30), "pctd": rng.choice([1, 2, 3])}
     if crash:
         run["crash"] = [{"h": rng.randint(1, nh), "before": rng.randint(2, 30)}]
+    if fault:
+        # one filesystem call of one handle fails with an injected I/O error (if the call at that position can fail that way)
+        run["fault"] = [{"h": rng.randint(1, nh), "before": rng.randint(2, 40)}]
     x = rng.random()
     if x < 0.2:
         # no marker refs: deletions can empty whole tables, compactions can have an empty result (no transaction accounting in these runs)
@@ -159,6 +162,8 @@ def validate(traces, workdir, module="TraceStackFS", invariants=None, jvms=8, ch
     """Validate traces with TLC. Returns (violations, rejected, stats):
     violations = list of (invariant, trace id, line); rejected = list of (trace id, line, text)."""
     invariants = invariants or INVARIANTS
+    for t in traces:
+        t["fault"] = bool(t.get("fault")) or any(e.get("injected") for e in t["events"])
     chunks = [traces[i:i + chunk] for i in range(0, len(traces), chunk)]
     viols, rej = [], []
     stats = dict(states=0, generated=0, jvm_runs=len(chunks), events=sum(len(t["events"]) for t in traces))
